@@ -270,6 +270,9 @@ def _case_wrap(W, n, m, variant, dec):
             # labels of the target differ from its values; the dimension is also named explicitly
             target = xr.DataArray(b, dims=["rho"], coords={"rho": np.arange(m + 1) * 10.0 + 100.0})
             kwt["target_dim"] = "rho"
+        if variant == "tz":
+            # bypass_checks is documented for the linear / log methods only: for the conservative method it changes nothing
+            kwt["bypass_checks"] = True
         r = grid.transform(pda, "Z", target, target_data=tda, method="conservative", **kwt)
         newdim = "rho" if variant.startswith("xarray-target") else "theta"
         W.require("wrap:dims:" + variant, set(r.dims) == {"t", newdim} and r.sizes[newdim] == m, "%s %s" % (r.dims, dict(r.sizes)))
